@@ -118,6 +118,9 @@ CONTRACTS = {
         ensures=["fixlog == old(fixlog) + [oViolation]"],
         trusted="abstract contract of a virtual method: what a fix does to the tokens of its own violation is the subject of C01-C03, not of the gating proofs",
     ),
+    # the default implementation (134 rule objects inherit it: every unfixable rule, the naming rules of phase 7, the
+    # deprecated placeholders): it does nothing at all, so those rules never change the file (C03)
+    "vsg.rule.Rule._fix_violation@impl": dict(types={"oViolation": VIOL}, modifies=[], ensures=["oViolation.oTokens.lTokens == old(oViolation.oTokens.lTokens)"]),
     "vsg.vhdlFile.vhdlFile.vhdlFile.set_token_indent": dict(modifies=["ghost:oplog", "heap:item.indent"], ensures=["oplog == old(oplog) + ['indent']"], trusted="ghost log stub"),
     # the two normalisers that run after phase 1 are verified (their bodies call vsg.vhdlFile.utils.fix_blank_lines /
     # fix_trailing_whitespace, whose contracts are in contracts/vhdlfile.py): nothing but blank-line markers and white space
